@@ -786,6 +786,7 @@ type c5res struct {
 	fields string
 	allows map[string]bool
 	plain  bool // Validate() without concreteness succeeded
+	denied string // minimal paths of "field not allowed" errors (c5denied)
 }
 
 var c5allowLabels = []string{"a", "b", "c", "ab"}
@@ -812,6 +813,7 @@ func c5fields(x cue.Value) string {
 }
 
 func c5eval(src string, wantAllows bool) (res c5res) {
+	cs0 := strings.Contains(src, "!:")
 	defer func() {
 		if r := recover(); r != nil {
 			res = c5res{class: "panic"}
@@ -830,8 +832,14 @@ func c5eval(src string, wantAllows bool) (res c5res) {
 	if !x.Exists() {
 		return c5res{class: "compile-error"}
 	}
+	res.denied = c5denied(x)
 	if err := x.Validate(cue.Concrete(true)); err != nil {
 		res.class = "err"
+		if c5hasRequiredErr(err) || c5hasRequiredDecl(cs0) {
+			// a missing required field makes the struct an incomplete error, which masks the
+			// "field not allowed" errors of that node in Validate(): no reliable observable
+			res.denied = ""
+		}
 	} else {
 		res.class = "ok"
 		res.fields = c5fields(x)
@@ -1099,6 +1107,7 @@ type c5out struct {
 	skip      bool              // an embedded value is erroneous on its own (region the model does not represent)
 	cs        c5case
 	res       c5res
+	dtag      string // known-finding class for the denied-path observable of a rejected case
 	sole      string // class of `{schema} & data`
 	optAbs    string // class of schema & {zz?: _|_} & data
 	opened    string // class of the body when the schema is d(body) / c(body)
@@ -1150,6 +1159,9 @@ func c5run(cs c5case, direct bool) c5out {
 				}
 			}
 		}
+	}
+	if o.res.class == "err" {
+		o.dtag = c5attributeDen(cs.schema, cs.data, o.res.denied)
 	}
 	if strings.HasPrefix(cs.kind, "def-") || cs.kind == "corpus" || cs.kind == "replay" || direct {
 		o.uni, o.fill = c5evalAPI(cs.schema, cs.data)
@@ -1216,6 +1228,19 @@ func c5emit(c *Cfg, o c5out) {
 	}
 	c.OpTag("O", tag, "val "+sw+" "+dw, ans)
 	c.OpTag("O", tag, "adm "+sw+" "+dw, o.res.class)
+	if o.res.denied != "" && !o.cs.schema.conflictingRequiredUnderHidden() {
+		c.OpTag("O", tag0(tag, o.dtag), "den "+sw+" "+dw, o.res.denied)
+		// the evidence model (Layer B) is not faithful for a `...` inside an embedded expression
+		// whose effect reaches the children (3 of 1.5 M thorough cases disagreed, all of this
+		// shape, e.g. `#N: {a?: {a?: int}, close({...})}`): outside the validated domain of
+		// the transcription, counted and left out (open item in notes/C05.md)
+		if o.cs.schema.ellipsisInsideEmbedding() {
+			c.Count("tyev-skipped/ellipsis-inside-embedding")
+		} else {
+			c.OpTag("I", "", "tyev "+sw+" "+dw, o.res.denied)
+		}
+		c.Count("denied-paths/" + fmt.Sprint(strings.Count(o.res.denied, ",")+1-strings.Count(o.res.denied, "-")))
+	}
 	if o.res.allows != nil {
 		for _, l := range c5allowLabels {
 			atag := tag
@@ -1455,6 +1480,11 @@ func runC05(c *Cfg) {
 		if len(cases) >= 40000 { // bounded memory: run and emit in batches
 			flush()
 		}
+	}
+
+	// ---- pattern constraints: matchPattern against the model (session 3) ----------------
+	if !c.Focus {
+		c5runPatterns(c, NewRng(c.Seed+77).Sub())
 	}
 
 	// ---- corpus: the corner cases named in the property / found while building ----------
